@@ -256,7 +256,8 @@ def _shards(tier):
     cfgs = [{"N": 4, "D": 3, "handoff": 1}, {"N": 3, "D": 3, "types": 2, "handoff": 0}, {"N": 3, "D": 3, "handoff": 1, "deferred": 1, "same_side": 1}, {"N": 3, "D": 3, "handoff": 0, "open": 4, "msg": 2}, {"N": 4, "D": 2, "handoff": 0, "open_menu": [0, 5], "types": 1, "same_type_tasks": 1}] if tier == "quick" else [{"N": 5, "D": 4, "handoff": 1}, {"N": 4, "D": 3, "types": 2, "handoff": 1}, {"N": 4, "D": 3, "handoff": 1, "deferred": 1, "same_side": 1}, {"N": 5, "D": 3, "handoff": 0, "open_menu": [0, 5], "same_type_tasks": 1}]
     for base in cfgs:
         out += [dict(base, prefix=q) for q in enumerate_prefixes(body_E1, "X", {}, base, 3)]
-    out.append({"wide": 1, "N": 0, "D": 0, "handoff": 0})
+    wide = {"wide": 1, "N": 0, "D": 0, "handoff": 0}
+    out += [dict(wide, prefix=q) for q in enumerate_prefixes(body_E1, "X", {}, wide, 3)]
     return out
 
 
